@@ -181,7 +181,12 @@ def main():
         raise SystemExit('gen_ffisizes: the field-state cases of start_function were not found in girparser.c')
     tb = ' '.join(function_body(psrc, 'start_type').split())
     try:
-        i = tb.index('if (typenode->has_size && ctx->current_typed->type == G_IR_NODE_FIELD)')
+        # from the first `if (...) typenode->is_pointer = FALSE;` (whatever its condition has become) to the end
+        # of the C-array block
+        m = re.search(r'if \([^;{}]*\) typenode->is_pointer = FALSE;', tb)
+        if not m:
+            raise ValueError('no assignment')
+        i = m.start()
         array_ptr = tb[i:tb.index('} else {', i)].strip()
     except ValueError:
         raise SystemExit('gen_ffisizes: the is_pointer decision for array fields was not found in start_type')
